@@ -164,8 +164,8 @@ theorem enum_helpers_total (v : UInt8) :
 
 /-! ### gating obligations on the generated tables -/
 
-example : Gen.Aac.toHzTable.length = 17 := by decide
-example : Gen.Aac.toHzGuard = some 0 := by decide
+example : "SampleRateIndex_ToHz" ∈ Gen.Aac.translatedHelpers ∧ Gen.Aac.untranslatedHelpers = [] := by decide
+example : Gen.Aac.ToHz 12 = .ok 7350 ∧ Gen.Aac.ToHz 13 = .ok 0 ∧ Gen.Aac.ToHz 255 = .ok 0 := by decide
 example : Gen.Aac.SampleRateIndexForbidden = 17 := by decide
 
 /-! ### non-vacuity: concrete inhabitants of the hypotheses, concrete instances of the conclusions -/
